@@ -381,7 +381,14 @@ func (m *Module) Gen(w *engine.World, r *engine.Rand) *engine.TxPlan {
 		if r.Bool(0.03) {
 			tok = "zzz"
 		}
+		if f := m.foreignDenom(r, denom); f != "" && r.Bool(0.06) {
+			// a coin that is neither of the pool's two (the pool may hold some: a gift)
+			tok = f
+		}
 		ref := w.Bal(p.Addr, tok)
+		if tok != denom && tok != Std && ref.Sign() == 0 {
+			ref = w.Bal(p.Addr, Std)
+		}
 		minLiq := big.NewInt(0)
 		if r.Bool(0.2) {
 			minLiq = amount(r, ref, bits)
@@ -395,6 +402,9 @@ func (m *Module) Gen(w *engine.World, r *engine.Rand) *engine.TxPlan {
 		tok := denom
 		if r.Bool(0.5) {
 			tok = Std
+		}
+		if f := m.foreignDenom(r, denom); f != "" && r.Bool(0.05) {
+			tok = f
 		}
 		have := w.Bal(w.A(actor).Addr.String(), p.Lpt)
 		liq := amount(r, have, bits)
@@ -417,10 +427,30 @@ func (m *Module) Gen(w *engine.World, r *engine.Rand) *engine.TxPlan {
 		if r.Bool(0.5) {
 			d = Std
 		}
+		ref := w.Bal(p.Addr, d)
+		if f := m.foreignDenom(r, denom); f != "" && r.Bool(0.2) {
+			d = f
+			ref = big.NewInt(1000000)
+		}
 		return engine.Tx1(engine.NewOp(Name, "donate", actor, donateArgs{Pool: denom, Denom: d,
-			Amt: amount(r, w.Bal(p.Addr, d), bits).String()}))
+			Amt: amount(r, ref, bits).String()}))
 	}
 	return nil
+}
+
+// foreignDenom picks a coin the actors hold that is not one of the given pool's two.
+func (m *Module) foreignDenom(r *engine.Rand, denom string) string {
+	var c []string
+	for _, d := range m.cfg.Denoms {
+		if d != denom {
+			c = append(c, d)
+		}
+	}
+	c = append(c, lookalikes...)
+	if len(c) == 0 {
+		return ""
+	}
+	return c[r.Intn(len(c))]
 }
 
 func (m *Module) genParams(w *engine.World, r *engine.Rand) *engine.TxPlan {
